@@ -64,6 +64,9 @@ def gen_case(rng, shape_name, with_override, with_sugar, with_alias):
         terms = []
         if rng.random() < 0.6:
             terms.append({"name": "T%d" % i, "text": "t%d" % i})
+        if rng.random() < 0.5:
+            # the SAME bare terminal name in several files, with a different recognizer in each (qualified names keep them apart)
+            terms.append({"name": "TT", "text": "u%d" % i})
         for n in defs[i]:
             alts = [[{"kind": "str", "text": fresh_text(i)}]]    # a productive alternative
             for _ in range(rng.randint(1, 2)):
@@ -73,7 +76,7 @@ def gen_case(rng, shape_name, with_override, with_sugar, with_alias):
                     if r < 0.3:
                         alt.append({"kind": "str", "text": rng.choice(["x", "y", fresh_text(i)])})
                     elif r < 0.4 and terms:
-                        alt.append({"kind": "ref", "parts": [terms[0]["name"]], "mult": ""})
+                        alt.append({"kind": "ref", "parts": [rng.choice(terms)["name"]], "mult": ""})
                     else:
                         mods, name, _j = rng.choice(reach_refs(i))
                         mult = rng.choice(["+", "*", "?"]) if (with_sugar and rng.random() < 0.3) else ""
